@@ -276,6 +276,7 @@ def _worker(args):
     scns = extra if extra is not None else [gen_world(random.Random("%s/%d/%d" % (prop, seed, i)), profile) for i in range(lo, hi)]
     runs, reqs = [], []
     for scn in scns:
+        common.note_inflight(scn)
         try:
             calls = W.run_world(scn)
         except W.S.SolverBudget:
@@ -328,8 +329,7 @@ def run(ck, prop, n, profile, extra=None):
     if len(chunks) == 1:
         results = [_worker(chunks[0])]
     else:
-        with multiprocessing.get_context("fork").Pool(len(chunks)) as pool:
-            results = pool.map(_worker, chunks)
+        results = common.pmap(_worker, chunks)
     digests = set()
     for r in results:
         for k, v in r["counts"].items():
